@@ -142,6 +142,8 @@ NEG = [
     ("AggregatorMC", "Aggregator_neg_swallow_tick.cfg", True), ("AggregatorMC", "Aggregator_neg_memory_reach.cfg", False),
     # the flush tick consumes the drop counter (seed C06-9)
     ("AggregatorMC", "Aggregator_neg_tickresets.cfg", False),
+    # a drop that is not counted breaks the drop count of failed runs too (FailedRunStillCounts is not vacuous)
+    ("AggregatorMC", "Aggregator_neg_nocount_fault.cfg", False),
     ("ShutdownMC", "Shutdown_neg_nowait.cfg", True), ("ShutdownMC", "Shutdown_neg_reach.cfg", False),
     # a first signal while the tasks of a FAILED run are awaited ends the process (seed C06-6)
     ("ShutdownMC", "Shutdown_neg_errsig.cfg", True),
